@@ -1,5 +1,5 @@
 """C16 - a context owns a private copy of its schema and shares nothing (DESIGN.md 7/C16)."""
-import json, time
+import zlib, json, time
 from vlib import core, schema
 from vlib import gen as G
 from vlib.core import hx, unhx, Verdict, F_LIST, F_MULTI, F_TITLE, F_COMMENTS, F_KEYSTRVAL
@@ -162,7 +162,10 @@ def script(spec):
     # a plain section that is removed and then created again by a parse is a new instance: it gets the declared defaults
     single = next((d for d in decls if d.typ == 'sec' and not d.is_multi and not (d.flags & core.F_NODEFAULT) and not (d.flags & F_KEYSTRVAL)), None)
     if single is not None:
-        L += ['note recreate', 'dumpsec 1 %s' % hx(single.name), 'rmnsec 0 %s 0' % hx(single.name), 'parse_buf 0 %s' % hx('%s { }\n' % single.name),
+        how = 'rmnsec 0 %s 0' % hx(single.name)
+        if zlib.crc32(single.name.encode()) % 2:
+            how = 'opt_free_value 0:%d' % decls.index(single)        # ... or emptied with cfg_free_value()
+        L += ['note recreate', 'dumpsec 1 %s' % hx(single.name), how, 'parse_buf 0 %s' % hx('%s { }\n' % single.name),
               'dumpsec 0 %s' % hx(single.name)]
     # sibling instances of multi sections inside context 0: touch instance 0 only, instance 1 must not move
     sib = first_multi_titled(decls)
